@@ -218,6 +218,12 @@ func (c CodeQuery) Exec(ctx *Context, loc *Location, qc QueryContext, qr QueryRe
 
 		maybeCopyEvent(bs)
 
+		// The condition is evaluated for this location (the search
+		// of a pattern query before us may have left the context at
+		// an ancestor).
+		if loc != nil && ctx != nil {
+			ctx.SetLoc(loc)
+		}
 		x, err := RunJavascript(ctx, bs.StripQuestionMarks(ctx), props, script)
 		if err != nil {
 			Log(WARN, ctx, "CodeQuery.Exec", "error", err)
